@@ -29,10 +29,16 @@ import (
 	simcheck "verif/sim/check"
 )
 
-const (
-	repoRoot = "/repo"
-	goBin    = "/opt/veriftools/go1.26.8/bin/go"
-)
+const goBin = "/opt/veriftools/go1.26.8/bin/go"
+
+// repoRoot is the tree under test: /repo, unless VERIF_REPO names a scratch copy
+// (used to run the checks against seeded changes without touching /repo).
+var repoRoot = func() string {
+	if r := os.Getenv("VERIF_REPO"); r != "" {
+		return r
+	}
+	return "/repo"
+}()
 
 // verifRoot is the directory the driver was started in: /verif for registered
 // checks, a snapshot of it for background runs (which then keep their evidence
@@ -64,7 +70,7 @@ var (
 
 var (
 	substCache = map[string]string{"os": "verif/sim/os", "time": "verif/sim/time", "sync": "verif/sim/sync"}
-	substLF    = map[string]string{"os": "verif/sim/os", "sync": "verif/sim/sync", "syscall": "verif/sim/sys", "time": "verif/sim/time"}
+	substLF    = map[string]string{"os": "verif/sim/os", "sync": "verif/sim/sync", "syscall": "verif/sim/sys", "time": "verif/sim/time", "runtime": "verif/sim/runtime"}
 )
 
 func cacheSpecs() []rewrite.PkgSpec {
@@ -266,7 +272,21 @@ func realMain() int {
 		return 2
 	}
 	bin := filepath.Join(scratch, "harness.test")
-	cmd := exec.Command(goBin, "test", "-c", "-overlay", ov, "-vet=off", "-o", bin, cfg.Harness)
+	buildArgs := []string{"test", "-c", "-overlay", ov, "-vet=off", "-o", bin}
+	if repoRoot != "/repo" {
+		// same module file, but the replace directive points at the scratch copy
+		mod, err := os.ReadFile(filepath.Join(verifRoot, "go.mod"))
+		if err != nil {
+			inconclusive(id, "go.mod: %v", err)
+			return 2
+		}
+		modfile := filepath.Join(scratch, "go.mod")
+		os.WriteFile(modfile, []byte(strings.Replace(string(mod), "=> /repo", "=> "+repoRoot, 1)), 0o644)
+		sum, _ := os.ReadFile(filepath.Join(verifRoot, "go.sum"))
+		os.WriteFile(filepath.Join(scratch, "go.sum"), sum, 0o644)
+		buildArgs = append(buildArgs, "-modfile="+modfile)
+	}
+	cmd := exec.Command(goBin, append(buildArgs, cfg.Harness)...)
 	cmd.Dir = verifRoot
 	cmd.Env = goEnv()
 	if outb, err := cmd.CombinedOutput(); err != nil {
